@@ -28,6 +28,19 @@ fn main() {
     // any failure is reported on the way and ends in a non-zero exit status
     let mut failed = false;
 
+    // an output file must not be the source itself
+    let source_path = opt.source.canonicalize().ok();
+    for output in [&opt.output, &opt.eeprom].iter().filter_map(|x| x.as_ref()) {
+        if source_path.is_some() && output.canonicalize().ok() == source_path {
+            println!(
+                "Failed to build file {}: output file {} is the source file",
+                file_name,
+                output.to_string_lossy()
+            );
+            std::process::exit(1);
+        }
+    }
+
     match build_file(opt.source.clone(), btreeset! { get_standard_includes() }) {
         Ok(built) => {
             // the file the flash image went to, the EEPROM image must not replace it
